@@ -25,21 +25,24 @@ structure Decoded (T : Tables) : Prop where
 /-- an int16 whole number (what the post and hmtx tables can hold) -/
 def isWhole16 (d : Dy) : Prop := ∃ n, d = Dy.ofInt n ∧ isInt16 n
 
-/-- `T` is in none of the open known-finding classes of C01.  Every clause names its finding; a
-file that has the post and hmtx tables `Write` always emits satisfies the last two by their first
-disjunct. -/
+/-- `T` is in none of the open known-finding classes of C01 (C01-bold-word and
+C01-no-hmtx-cff-widths; C01-empty-glyf, C01-no-hmtx-widths and C01-no-post-underline are repaired).
+A file with post and hmtx tables, and every TrueType file with a post table, can only fail `bold`. -/
 structure Stable (T : Tables) : Prop where
   /-- not C01-bold-word (DESIGN §9 #4): if `Subfamily()` of the font as read says "Bold" — the
   weight word for usWeightClass 650..749 unless the family name already contains it — then the
   font was read with IsBold set -/
   bold : boldWord (subfamily (merge T)) = true → (merge T).isBold = true
-  /-- not C01-no-post-underline: there is a post table, or the underline metrics taken from
-  the CFF FontInfo are whole numbers in int16 -/
+  /-- what remains of C01-no-post-underline after the repair 0dc7ef1: without a post table the
+  (now rounded) underline metrics of the CFF FontInfo must fit the int16 fields of the post table
+  that `Write` will emit -/
   underline : T.post.isSome = true ∨
-    (isWhole16 (merge T).underlinePosition ∧ isWhole16 (merge T).underlineThickness)
-  /-- not C01-no-hmtx-widths / C01-no-hmtx-cff-widths: hmtx supplies the advance widths, or the
-  widths stored in the CFF glyph data are whole numbers in int16 and a TrueType font has no glyphs -/
-  widths : hmtxWidths T ≠ [] ∨
+    ∀ c, T.scalerCFF = true → T.cff = some c →
+      isInt16 c.underlinePosition.round ∧ isInt16 c.underlineThickness.round
+  /-- not C01-no-hmtx-cff-widths: hmtx supplies the advance widths, or the file is TrueType
+  (zero widths since the repair feedc74), or the widths stored in the CFF glyph data are whole
+  numbers in int16 -/
+  widths : hmtxWidths T ≠ [] ∨ T.scalerCFF = false ∨
     ((∀ w ∈ (merge T).outline.widthList, isWhole16 w) ∧
      ((merge T).outline.widths = none → (merge T).outline.numGlyphs = 0))
 
@@ -446,38 +449,93 @@ theorem mergeOutline_widths_hmtx (T : Tables) (h : hmtxWidths T ≠ []) :
     | cons a t => simp
   simp only [this, if_true]
 
+theorem replicate_zero_ok (n : Nat) : ∀ w ∈ List.replicate n (Dy.ofInt 0), ∃ m, w = Dy.ofInt m ∧ isInt16 m := by
+  intro w hw
+  rw [List.eq_of_mem_replicate hw]
+  exact ⟨0, rfl, by unfold isInt16; omega⟩
+
+theorem merge_ul_nopost (T : Tables) (hp : T.post = none) :
+    (merge T).underlinePosition =
+      (match (if T.scalerCFF then T.cff else none) with
+       | some c => Dy.ofInt c.underlinePosition.round | none => Dy.ofInt 0) ∧
+    (merge T).underlineThickness =
+      (match (if T.scalerCFF then T.cff else none) with
+       | some c => Dy.ofInt c.underlineThickness.round | none => Dy.ofInt 0) := by
+  unfold merge
+  simp only [hp]
+  cases (if T.scalerCFF then T.cff else none) <;> exact ⟨rfl, rfl⟩
+
+theorem mergeOutline_widths_glyf_nohmtx (T : Tables) (hs : T.scalerCFF = false) (hm : hmtxWidths T = []) :
+    (mergeOutline T).widths = some (List.replicate T.outline.numGlyphs (Dy.ofInt 0)) := by
+  unfold mergeOutline
+  simp [hm, hs]
+
 /-- the table-level hypotheses give the field-level ones -/
 theorem stableF_of (T : Tables) (hd : Decoded T) (hs : Stable T) : StableF T where
   bold := hs.bold
   angle := merge_angle_range T hd
   ulPos := by
-    rcases hs.underline with h | h
-    · cases hp : T.post with
-      | none => rw [hp] at h; cases h
-      | some p => exact ⟨p.underlinePosition, (merge_ul_post T p hp).1, (hd.postRange p hp).1⟩
-    · exact h.1
+    cases hp : T.post with
+    | some p => exact ⟨p.underlinePosition, (merge_ul_post T p hp).1, (hd.postRange p hp).1⟩
+    | none =>
+      have hr : ∀ c, T.scalerCFF = true → T.cff = some c →
+          isInt16 c.underlinePosition.round ∧ isInt16 c.underlineThickness.round := by
+        rcases hs.underline with h | h
+        · rw [hp] at h; cases h
+        · exact h
+      rw [(merge_ul_nopost T hp).1]
+      cases hsc : T.scalerCFF with
+      | false => exact ⟨0, rfl, by decide, by decide⟩
+      | true =>
+        simp only [if_true]
+        cases hc : T.cff with
+        | none => exact ⟨0, rfl, by decide, by decide⟩
+        | some c => exact ⟨_, rfl, (hr c hsc hc).1⟩
   ulThick := by
-    rcases hs.underline with h | h
-    · cases hp : T.post with
-      | none => rw [hp] at h; cases h
-      | some p => exact ⟨p.underlineThickness, (merge_ul_post T p hp).2, (hd.postRange p hp).2⟩
-    · exact h.2
+    cases hp : T.post with
+    | some p => exact ⟨p.underlineThickness, (merge_ul_post T p hp).2, (hd.postRange p hp).2⟩
+    | none =>
+      have hr : ∀ c, T.scalerCFF = true → T.cff = some c →
+          isInt16 c.underlinePosition.round ∧ isInt16 c.underlineThickness.round := by
+        rcases hs.underline with h | h
+        · rw [hp] at h; cases h
+        · exact h
+      rw [(merge_ul_nopost T hp).2]
+      cases hsc : T.scalerCFF with
+      | false => exact ⟨0, rfl, by decide, by decide⟩
+      | true =>
+        simp only [if_true]
+        cases hc : T.cff with
+        | none => exact ⟨0, rfl, by decide, by decide⟩
+        | some c => exact ⟨_, rfl, (hr c hsc hc).2⟩
   widths := by
-    rcases hs.widths with h | h
+    by_cases hm : hmtxWidths T = []
+    · rcases hs.widths with h | h | h
+      · exact absurd hm h
+      · intro w hw
+        rw [merge_outline] at hw
+        unfold Outline.widthList at hw
+        rw [mergeOutline_widths_glyf_nohmtx T h hm] at hw
+        exact replicate_zero_ok _ w hw
+      · exact h.1
     · intro w hw
       rw [merge_outline] at hw
       unfold Outline.widthList at hw
-      rw [mergeOutline_widths_hmtx T h] at hw
+      rw [mergeOutline_widths_hmtx T hm] at hw
       simp only [List.mem_map] at hw
       obtain ⟨n, hn, rfl⟩ := hw
       exact ⟨n, rfl, hmtxWidths_range T hd n hn⟩
-    · exact h.1
   widthsNone := by
-    rcases hs.widths with h | h
+    by_cases hm : hmtxWidths T = []
+    · rcases hs.widths with h | h | h
+      · exact absurd hm h
+      · intro hn
+        rw [merge_outline, mergeOutline_widths_glyf_nohmtx T h hm] at hn
+        cases hn
+      · exact h.2
     · intro hn
-      rw [merge_outline, mergeOutline_widths_hmtx T h] at hn
+      rw [merge_outline, mergeOutline_widths_hmtx T hm] at hn
       cases hn
-    · exact h.2
 
 theorem canonical_merge (T : Tables) (hacc : readErr T = none) (hd : Decoded T) (hs : Stable T) :
     Canonical (merge T) where
@@ -625,11 +683,6 @@ theorem nf_xh_ok (F : FontMeta) :
   rw [nf_xh, nf_outline]
   apply heightFallback_nonneg
   split <;> omega
-
-theorem replicate_zero_ok (n : Nat) : ∀ w ∈ List.replicate n (Dy.ofInt 0), ∃ m, w = Dy.ofInt m ∧ isInt16 m := by
-  intro w hw
-  rw [List.eq_of_mem_replicate hw]
-  exact ⟨0, rfl, by unfold isInt16; omega⟩
 
 theorem nfOutline_widths_ok (o : Outline) :
     ∀ w ∈ (nfOutline o).widthList, ∃ n, w = Dy.ofInt n ∧ isInt16 n := by
